@@ -119,12 +119,33 @@ SENSITIVE_THUMB = ([(0xF3AF, 0x8100 | m) for m in (0x16, 0x1A, 0x11, 0x12, 0x17,
                     (0x4770,), (0xBD00,), (0xDE00,), (0x4778,)])                                          # BX LR, POP {pc}, UDF, BX PC
 
 
+# exclusive accesses on the (mapped, aligned) stack word: LDREX r1,[sp] / STREX r2,r3,[sp] / CLREX and a harmless filler.
+# Whether a STREX succeeds is state of the monitors, which belong to the instance like everything else.
+EXCL_ARM = dict(ldrex=(0xE19D1F9F,), strex=(0xE18D2F93,), clrex=(0xF57FF01F,), fill=(0xE2844001,))
+EXCL_THUMB = dict(ldrex=(0xE85D, 0x1F00), strex=(0xE84D, 0x3200), clrex=(0xF3BF, 0x8F2F), fill=(0x3401,))
+
+
 def gen_program(rng, thumb, n=24, seed=0, sensitive=0.0):
     from vf import trace_decode as td
     pool = word_pool(seed)
     out = bytearray()
+    excl = rng.random() < 0.15
+
+    def emit(words):
+        for w_ in words:
+            out.extend(w_.to_bytes(2 if thumb else 4, 'little'))
+
     while len(out) < n * 4:
         r = rng.random()
+        if excl and (not out or rng.random() < 0.3):
+            tab = EXCL_THUMB if thumb else EXCL_ARM
+            emit(tab['ldrex'])
+            for _ in range(rng.randrange(3)):
+                emit(tab['fill'])
+            if rng.random() < 0.2:
+                emit(tab['clrex'])
+            emit(tab['strex'])
+            continue
         if sensitive and (rng.random() < sensitive or (not out and rng.random() < 0.6)):
             if not thumb:
                 out += rng.choice(SENSITIVE_ARM).to_bytes(4, 'little')
